@@ -4,7 +4,7 @@
 #include "ref_flow.h"
 #include <stdio.h>
 #include <string.h>
-#include "/repo/include/definitions/bidib_messages.h"
+#include "include/definitions/bidib_messages.h"
 
 simbus_t SB;
 static void on_write(const uint8_t *buf, int32_t len);
